@@ -40,7 +40,7 @@ def plan(seed, subbatch):
         level_tf = cfg.choice([t for t in ("T1", "T5", "T15", "H1") if tf_seconds(t) >= base_s and tf_seconds(t) <= 20 * base_s] or [None])
     if level_tf:
         unit = tf_seconds(level_tf)
-        mult = [t for t in world.TIMEFRAMES if tf_seconds(t) % unit == 0 and unit < tf_seconds(t) <= 6 * unit]
+        mult = [t for t in world.TIMEFRAMES if tf_seconds(t) % unit == 0 and unit < tf_seconds(t) <= 6 * unit] + [level_tf, level_tf]
     else:
         mult = [t for t in world.TIMEFRAMES if base_s < tf_seconds(t) <= 12 * base_s]
     if mult and cfg.random() < 0.75:
